@@ -73,6 +73,8 @@ type RunConfig struct {
 	Opaque       []string // external functions replaced by 'returns zero values' (recorded as stubs)
 	Sequential   bool // harness is single-goroutine (native replay possible)
 	Params       map[string]int
+	AtomBytes    int  // > 0: arbitrary names (atoms) are drawn as strings of 0..AtomBytes symbolic ASCII bytes (fallback when the code inspects name content)
+	AtomFallback int  // > 0: a content operation on an atom aborts the run so that it can be repeated with AtomBytes = AtomFallback
 }
 
 type Exec struct {
@@ -107,6 +109,8 @@ type Exec struct {
 	rndSources []*rndSource
 	lastNow    *Term
 	timerOf    map[*Cell]*timerState
+	pools      map[*Cell][]Value // sync.Pool contents (per path)
+	conds      map[*Cell]*condState
 	utf8ok     map[*Term]*Term
 	atomVCs    map[*Cell]*VC
 	callSite   *ssa.Call
@@ -670,6 +674,14 @@ func (e *Exec) inputsUnderModel(m map[string]interface{}) []map[string]interface
 		r := map[string]interface{}{"kind": in.Kind, "name": in.Name}
 		switch in.Kind {
 		case "atom":
+			if in.t == nil { // drawn as a bytes string (AtomBytes)
+				bs := make([]byte, len(in.bs))
+				for i, b := range in.bs {
+					bs[i] = byte(b.Eval(m, memo).(*big.Int).Int64())
+				}
+				r["value"] = string(bs)
+				break
+			}
 			rk := in.t.Eval(m, memo).(*big.Int)
 			r["value"] = atomStr[rk.String()]
 		case "int", "uint":
@@ -717,7 +729,7 @@ func (e *Exec) realiseAtoms(m map[string]interface{}, memo map[*Term]interface{}
 	var ranks []*big.Int
 	seen := map[string]bool{}
 	for _, in := range e.inputs {
-		if in.Kind != "atom" {
+		if in.Kind != "atom" || in.t == nil {
 			continue
 		}
 		rk := in.t.Eval(m, memo).(*big.Int)
